@@ -24,7 +24,7 @@ type FuncResult struct {
 // VerifyFunction generates all obligations for fn against its contract (may be nil: safety sweep only).
 func (e *Engine) VerifyFunction(fn *ssa.Function) (res *FuncResult) {
 	ct := e.contractFor(fn)
-	fx := &FnExec{eng: e, ctx: NewCtx(), fn: fn, contract: ct, keySort: map[string]Sort{}, notes: map[string]bool{}, names: map[string]int{}}
+	fx := &FnExec{eng: e, ctx: NewCtx(), fn: fn, contract: ct, keySort: map[string]Sort{}, notes: map[string]bool{}, names: map[string]int{}, refKeys: map[string]bool{}}
 	res = &FuncResult{Func: e.shortName(fn), Full: fn.String(), HasContract: ct != nil}
 	for _, b := range fn.Blocks {
 		res.Instrs += len(b.Instrs)
@@ -406,7 +406,7 @@ func (fr *Frame) runRecover(st *State) {
 func (e *Engine) VerifyLemma(l *SpecFunc) *FuncResult {
 	name := pkgShort(l.PkgPath) + ".lemma." + l.Name
 	res := &FuncResult{Func: name, Full: name, HasContract: true}
-	fx := &FnExec{eng: e, ctx: NewCtx(), contract: nil, keySort: map[string]Sort{}, notes: map[string]bool{}, names: map[string]int{}}
+	fx := &FnExec{eng: e, ctx: NewCtx(), contract: nil, keySort: map[string]Sort{}, notes: map[string]bool{}, names: map[string]int{}, refKeys: map[string]bool{}}
 	wm0 := fx.ctx.Const("wm0", SInt)
 	entry := &State{heap: map[string]Term{}, epoch: 0, wm: wm0, pc: True, ghost: map[string]Term{}}
 	fx.entry = entry
